@@ -201,6 +201,7 @@ RECURSIVE MergeMaps(_, _, _)
 MergeMaps(m, ks, vs) == IF ks = <<>> THEN m ELSE MergeMaps(MapPut(m, Head(ks), Head(vs)), Tail(ks), Tail(vs))
 
 \* harness spy filters that take no argument: name -> the id they count under
+KnownTests == {"defined", "empty", "null", "none", "even", "odd", "iterable", "divisibleby", "sameas", "st", "stx"}
 NamedSpyFilters == [sfz |-> "f1", sfa |-> "a1"]
 BuiltinFilters == {"upper", "lower", "trim", "capitalize", "length", "first", "last", "reverse",
                    "sort", "join", "default", "keys", "merge", "slice", "abs", "escape", "e"}
@@ -268,8 +269,12 @@ FromImports(body, acc) ==
 \* worlds and activations
 \* ---------------------------------------------------------------------------
 NoFault == [id |-> "", nth |-> 0]
-MkW(tp, polF, polFn, fault) ==
-    [tp |-> tp, polF |-> polF, polFn |-> polFn, fault |-> fault]
+\* fl: name of a template whose load fails with the injected fault ("" = none)
+MkWF(tp, polF, polFn, fault, fl) ==
+    [tp |-> tp, polF |-> polF, polFn |-> polFn, fault |-> fault, fl |-> fl]
+MkW(tp, polF, polFn, fault) == MkWF(tp, polF, polFn, fault, "")
+\* outcome of loading template name t: "" ok, else the error kind
+LoadErr(W, t) == IF t = W.fl THEN "fault" ELSE IF t \notin DOMAIN W.tp THEN "notfound" ELSE ""
 \* tp : function template-name -> body (sequence of statements); a name that is
 \* not in DOMAIN tp does not exist (ErrTemplateNotFound).
 
@@ -420,11 +425,14 @@ Eval(e, A, sc, calls) ==
            LET r == Eval(e.e, A, sc, calls) IN
            IF ~r.ok THEN r
            ELSE LET res ==
-                    CASE e.tn = "defined" /\ e.e.k = "var" -> ROk(VB(e.e.n \in DOMAIN sc), r.calls)
+                    CASE e.tn \in {"st", "stx"} /\ Len(e.args) = 1 /\ e.args[1].k = "lit" /\ e.args[1].v.t = "id" ->
+                           Invoke("test", e.tn, e.args[1].v.id, A, r.calls, VB(TRUE))     \* spy test: true
+                      [] e.tn = "defined" /\ e.e.k = "var" -> ROk(VB(e.e.n \in DOMAIN sc), r.calls)
                       [] e.tn = "empty" -> ROk(VB(IsEmptyVal(r.v)), r.calls)
                       [] e.tn = "null" -> ROk(VB(r.v.t = "null"), r.calls)
                       [] e.tn = "even" /\ r.v.t = "int" -> ROk(VB(r.v.i % 2 = 0), r.calls)
                       [] e.tn = "odd" /\ r.v.t = "int" -> ROk(VB(r.v.i % 2 = 1), r.calls)
+                      [] e.tn \notin KnownTests -> RErr("unknown", r.calls)
                       [] OTHER -> RErr("frag", r.calls)
                 IN IF ~res.ok THEN res ELSE ROk(VB(res.v.b # e.neg), res.calls)
       [] e.k = "call" ->
@@ -454,7 +462,9 @@ Eval(e, A, sc, calls) ==
                 LET as == EvalSeq(e.args, A, sc, calls) IN
                 IF ~as.ok THEN as
                 ELSE IF e.f \in DOMAIN A.fm
-                     THEN CallMacro(A.fm[e.f].tpl, A.fm[e.f].n, as.v.xs, A, sc, as.calls)
+                     THEN IF HasMacro(A.W, A.fm[e.f].tpl, A.fm[e.f].n)
+                          THEN CallMacro(A.fm[e.f].tpl, A.fm[e.f].n, as.v.xs, A, sc, as.calls)
+                          ELSE RErr("unknown", as.calls)
                 ELSE IF HasMacro(A.W, A.self, e.f)
                      THEN CallMacro(A.self, e.f, as.v.xs, A, sc, as.calls)
                 ELSE RErr("unknown", as.calls)
@@ -514,7 +524,7 @@ ExecLoop(s, items, i, A, st, n) ==
 
 \* extends chain of template t (most derived first); parent names may be dynamic
 ResolveChain(W, t, sc, A, calls) ==
-    IF t \notin DOMAIN W.tp THEN [ok |-> FALSE, err |-> "notfound", chain |-> <<>>, calls |-> calls]
+    IF LoadErr(W, t) # "" THEN [ok |-> FALSE, err |-> LoadErr(W, t), chain |-> <<>>, calls |-> calls]
     ELSE LET body == W.tp[t] IN
          IF body # <<>> /\ body[1].k = "extends" THEN
               LET r == Eval(body[1].e, A, sc, calls) IN
@@ -587,11 +597,12 @@ ExecStmt(s, A, st) ==
            IN r
       [] s.k = "extends" -> st            \* resolved by RenderTemplate
       [] s.k = "macro" -> st              \* definitions produce no output
-      [] s.k = "import" ->
-           LET r == Eval(s.e, A, st.sc, st.calls) IN
+      [] s.k \in {"import", "from"} ->       \* alias binding is static (ImportAliases / FromImports);
+           LET r == Eval(s.e, A, st.sc, st.calls) IN          \* the statement itself loads the library
            IF ~r.ok THEN StErr(st, r.err, r.calls)
-           ELSE st            \* alias binding is static: see ImportsOf
-      [] s.k = "from" -> st
+           ELSE IF r.v.t # "str" \/ ~TextIsName(r.v.s) THEN StErr(st, "notfound", r.calls)
+           ELSE IF LoadErr(A.W, NameOfText(r.v.s)) # "" THEN StErr(st, LoadErr(A.W, NameOfText(r.v.s)), r.calls)
+           ELSE [st EXCEPT !.calls = r.calls]
       [] s.k = "include" ->
            LET r == Eval(s.e, A, st.sc, st.calls) IN
            IF ~r.ok THEN StErr(st, r.err, r.calls)
@@ -602,6 +613,7 @@ ExecStmt(s, A, st) ==
                      THEN StErr(st, "frag", w.calls)
                 ELSE IF ~TextIsName(r.v.s) \/ NameOfText(r.v.s) \notin DOMAIN A.W.tp THEN
                         IF s.ign THEN [st EXCEPT !.calls = w.calls] ELSE StErr(st, "notfound", w.calls)
+                ELSE IF LoadErr(A.W, NameOfText(r.v.s)) # "" THEN StErr(st, LoadErr(A.W, NameOfText(r.v.s)), w.calls)
                 ELSE LET base == IF s.only THEN EmptyFn ELSE st.sc
                          RECURSIVE AddAll(_, _)
                          AddAll(sc0, i) == IF i > Len(w.v.ks) THEN sc0
